@@ -623,16 +623,20 @@ def s6_ufuncs(ctx):
                     if uf.__name__ in ("matmul", "vecdot") and (len(kind_shape(k0, s0)) == 0 or len(kind_shape(k1, s1)) == 0):
                         continue
                     unit_sets = [("m", "m")] if both else [("", "")]
-                    if both and uf.__name__ in ("divide", "multiply", "true_divide", "floor_divide"):
-                        unit_sets.append(("cm", "m"))
+                    if both and uf.__name__ in ("divide", "multiply", "true_divide", "floor_divide", "matmul", "vecdot"):
+                        # a pair whose product/quotient simplifies with a numeric coefficient: the result goes
+                        # through the final `mul * out_arr` of __array_ufunc__ (seeded change C16-c: 0-d matmul)
+                        unit_sets.append(("cm", "m") if uf.__name__ not in ("matmul", "vecdot") else ("km/s", "hr"))
                     if uf.__name__ in ("power", "ldexp") or (uf.__name__ == "heaviside"):
                         unit_sets = [("m", "")] if k0 in ("A", "S", "Q", "Q1", "SQ") else [("", "")]
                     for units in unit_sets:
                         if uf.__name__ in ("matmul", "vecdot"):
                             run_case(uf, "call", None, [(k0, (3,)), (k1, (3,))], units)
                             run_case(uf, "call", None, [(k0, (2, 3)), (k1, (3,))], units)
-                            break
+                            continue
                         run_case(uf, "call", None, [(k0, s0), (k1, s1)], units)
+                    if uf.__name__ in ("matmul", "vecdot"):
+                        break
                 if uf.__name__ in ("matmul", "vecdot"):
                     continue
             # methods of binary ufuncs
